@@ -307,7 +307,25 @@ pub fn family_i_jobs() -> (Vec<IJob>, BTreeMap<String, u64>) {
     let tys = [IntTy::U8, IntTy::U16, IntTy::U32, IntTy::U64, IntTy::Usize, IntTy::I8, IntTy::I16, IntTy::I32, IntTy::I64];
     let mut jobs = vec![];
     let per_template: Mutex<BTreeMap<String, u64>> = Mutex::new(BTreeMap::new());
-    for tpl in TEMPLATES {
+    // generated templates: every arithmetic / bitwise operator with the literals 0, 1 and 2 on either side
+    // (the operands that strength reductions and constant folding look for), plus compound assignments
+    let mut generated: Vec<Template> = vec![];
+    for op in ["+", "-", "*", "/", "%", "&", "|", "^"] {
+        for v in [0, 1, 2] {
+            for (side, body) in [("x op lit", format!("x {op} {{{v}:T}}")), ("lit op x", format!("{{{v}:T}} {op} x"))] {
+                let name: &'static str = Box::leak(format!("{}: {op} {v}", side).into_boxed_str());
+                let src: &'static str = Box::leak(format!("pub fn main(x: T) -> T {{\n  {body}\n}}\n").into_boxed_str());
+                generated.push(Template { name, src, params: &["T"], ret: "T", signed_only: false, unsigned_only: false, other: None });
+            }
+            let name: &'static str = Box::leak(format!("x op= lit: {op} {v}").into_boxed_str());
+            let src: &'static str = Box::leak(format!("pub fn main(x: T) -> T {{\n  let mut v = x;\n  v {op}= {{{v}:T}};\n  v\n}}\n").into_boxed_str());
+            generated.push(Template { name, src, params: &["T"], ret: "T", signed_only: false, unsigned_only: false, other: None });
+            let name: &'static str = Box::leak(format!("if c {{x op lit}} else {{x}}: {op} {v}").into_boxed_str());
+            let src: &'static str = Box::leak(format!("pub fn main(x: T, c: bool) -> T {{\n  if c {{ x {op} {{{v}:T}} }} else {{ x }}\n}}\n").into_boxed_str());
+            generated.push(Template { name, src, params: &["T", "bool"], ret: "T", signed_only: false, unsigned_only: false, other: None });
+        }
+    }
+    for tpl in TEMPLATES.iter().chain(generated.iter()) {
         for t in tys {
             if (tpl.signed_only && !t.signed()) || (tpl.unsigned_only && t.signed()) {
                 continue;
@@ -506,7 +524,7 @@ pub fn run(tier: Tier) -> i32 {
             "evaluations": cnt.programs.load(Ordering::Relaxed) + fr.counters.get("programs"),
             "distinct_nontrivial": cnt.accepted.load(Ordering::Relaxed) + fr.counters.get("nontrivial_programs"),
             "supplied_constant_cases(10 constant types x boundary literals of every number type, see C12)": supplied_cases.load(Ordering::Relaxed),
-            "rule": "family I: 63 templates (incl. elements of tuples / arrays of unsuffixed numbers used at a declared type, and ranges used as arrays), one per path by which an integer literal meets its type (operand either side, nested, through let / let mut / annotated let / destructuring / arrays / repeat / tuples / struct and enum fields / fn arguments / return / if branches / match patterns and arms / block tail / ranges / indices / shift amounts / casts / assignments / negative and out-of-range values), each literal position suffixed or unsuffixed in EVERY subset, for all 9 integer types; plus zero-sized and single-array-parameter programs; an accepted program must compile every pub fn without panic to a circuit that validates, has one party per parameter (per element for a single array parameter) of size(type) bits and 161 + size(return type) outputs that decode; fully suffixed in-range instances must be accepted; every accepted variant with unsuffixed literals must compute the same outputs as the fully suffixed program of its group on 6 input patterns (reported under C01); (a) every program of families E, S, P, D must be accepted and well-shaped; distinct_nontrivial = accepted family-I programs + family programs with >=2 distinct outputs",
+            "rule": "family I: 63 written templates + 96 generated ones (8 operators x literals 0 / 1 / 2 x {x op lit, lit op x, x op= lit, inside an if branch}) (incl. elements of tuples / arrays of unsuffixed numbers used at a declared type, and ranges used as arrays), one per path by which an integer literal meets its type (operand either side, nested, through let / let mut / annotated let / destructuring / arrays / repeat / tuples / struct and enum fields / fn arguments / return / if branches / match patterns and arms / block tail / ranges / indices / shift amounts / casts / assignments / negative and out-of-range values), each literal position suffixed or unsuffixed in EVERY subset, for all 9 integer types; plus zero-sized and single-array-parameter programs; an accepted program must compile every pub fn without panic to a circuit that validates, has one party per parameter (per element for a single array parameter) of size(type) bits and 161 + size(return type) outputs that decode; fully suffixed in-range instances must be accepted; every accepted variant with unsuffixed literals must compute the same outputs as the fully suffixed program of its group on 6 input patterns (reported under C01); (a) every program of families E, S, P, D must be accepted and well-shaped; distinct_nontrivial = accepted family-I programs + family programs with >=2 distinct outputs",
             "suffix_variant_pairs_compared_with_fully_suffixed_program": diff_pairs,
             "suffix_variant_evaluations": diff_evals,
             "functions_refused_for_having_no_input_bit": cnt.refused_no_input_bits.load(Ordering::Relaxed),
